@@ -115,7 +115,10 @@ def run(ctx):
             seen_core.add(ck)
             plain = B(st["plain"])
             stub = b"\x90" * st["stubLen"]
-            data = xorenc.stage(stub, nonce, plain)
+            # the size field of the header is not part of the view (XorFileR knows no such thing): every third core state gets a
+            # header whose size field disagrees with the data that follows (too large, too small, zero)
+            sz = {0: None, 1: None, 2: [len(plain) + 7, max(0, len(plain) - 2), 0][(len(seen_core) // 3) % 3]}[len(seen_core) % 3]
+            data = xorenc.stage(stub, nonce, plain, size=sz)
             use_file = (len(seen_core) % 7) == 0
             for act, dst in g.edges.get(node, []):
                 if use_file:
@@ -160,7 +163,7 @@ def run(ctx):
         if L(mine) != row["stage"]:
             raise core.MachineryError(f"harness encoder disagrees with XorFileR.Stage on {row['plain']}")
     rng = random.Random(ctx.seed * 31 + 9)
-    reps = 2 if ctx.quick else 12
+    reps = 4 if ctx.quick else 12
     for row in tab["detect"]:
         for rep in range(reps):
             arch = rng.choice(["x86", "x64"])
@@ -183,7 +186,9 @@ def run(ctx):
             nn = bytes(rng.randrange(256) for _ in range(4))
             trailing = b"" if row["sizeok"] else bytes(rng.randrange(256) for _ in range(rng.choice([1, 4, 100])))
             data = xorenc.stage(stub, nn, content, trailing)
-            out = core.outcome(lambda: XF.from_file(io.BytesIO(data)))
+            # maxrange bounds the search for the nonce offset only: any value that covers the stub must give the same answer
+            mr = None if rep % 2 == 0 else len(stub) + rng.choice([8, 16, 100])
+            out = core.outcome(lambda: XF.from_file(io.BytesIO(data)) if mr is None else XF.from_file(io.BytesIO(data), maxrange=mr))
             ctx.evaluations += 1
             exp = row["expect"]
             got = None
@@ -206,7 +211,7 @@ def run(ctx):
                 ctx.violation(
                     "XorEncodedFile.from_file disagrees with XorFileR.DetectExpect",
                     {"op": "XorEncodedFile.from_file", "expect": exp, "stub": row["stub"], "sizeok": row["sizeok"], "got_kind": got_kind},
-                    {"got": got or out, "stub_len": len(stub), "content_len": len(content), "trailing": len(trailing), "nonce": L(nn)},
+                    {"got": got or out, "stub_len": len(stub), "content_len": len(content), "trailing": len(trailing), "nonce": L(nn), "maxrange": mr},
                 )
             ctx.count_distinct(("detect", row["stub"], row["sizeok"], row["content"], rep))
     ctx.sample({"detect_row": tab["detect"][0]})
